@@ -137,7 +137,7 @@ var checks = []Check{
 		Jobs: []Job{
 			{Pkg: "proc/redis", Scenarios: []string{"C04/histories"}, Shards: 16, QuickS: 90, ThoroughS: 240},
 			{Pkg: "proc/redis", Scenarios: []string{"C02/stack-race"}, Race: true, Shards: 1, QuickS: 120, ThoroughS: 240},
-			{Pkg: "proc/redis", Scenarios: []string{"C02/redirect-target", "C02/scan-host-change"}, Shards: 16, QuickS: 180, ThoroughS: 240},
+			{Pkg: "proc/redis", Scenarios: []string{"C02/redirect-target", "C02/scan-host-change", "C02/notice-many"}, Shards: 16, QuickS: 180, ThoroughS: 240},
 			{Pkg: "proc/redis", Scenarios: []string{"C09/redis-collect"}, Shards: 8, QuickS: 90, ThoroughS: 240},       // a host-removal notice (failover) while the hot-key collection runs
 			{Pkg: "proc/redis", Scenarios: []string{"C02/upstream-redirect"}, Shards: 16, QuickS: 150, ThoroughS: 240}, // a host-removal / replace / stop racing a redirected request
 			{Pkg: "proc/redis", Scenarios: []string{"C04/asking"}, Shards: 16, QuickS: 90, ThoroughS: 240},
@@ -188,7 +188,7 @@ var checks = []Check{
 			{Pkg: "proc/redis", Scenarios: []string{"C02/client"}, Shards: 16, QuickS: 80, ThoroughS: 240},
 			{Pkg: "proc/redis", Scenarios: []string{"C02/upstream"}, Shards: 16, QuickS: 80, ThoroughS: 240},
 			{Pkg: "proc/redis", Scenarios: []string{"C09/redis-collect"}, Shards: 8, QuickS: 90, ThoroughS: 240}, // a backend client stopped while the hot-key collection runs: later requests must still be answered
-			{Pkg: "proc/redis", Scenarios: []string{"C02/redirect-target", "C02/scan-host-change"}, Shards: 16, QuickS: 180, ThoroughS: 240},
+			{Pkg: "proc/redis", Scenarios: []string{"C02/redirect-target", "C02/scan-host-change", "C02/notice-many"}, Shards: 16, QuickS: 180, ThoroughS: 240},
 			{Pkg: "proc/redis", Scenarios: []string{"C02/upstream-redirect"}, Shards: 16, QuickS: 150, ThoroughS: 240},
 			{Pkg: "proc/redis", Scenarios: []string{"C09/redis-stop"}, Shards: 16, QuickS: 80, ThoroughS: 240},
 			{Pkg: "proc/redis", Scenarios: []string{"C02/stack"}, Shards: 16, QuickS: 80, ThoroughS: 240},
